@@ -399,3 +399,137 @@ def while_body(loop):
         if first is not None and first["k"] == "If":
             return first["t"]
     return loop
+
+
+# ---------------------------------------------------------------------------------- ALIAS
+
+ALIAS_RULE = ("the register fields whose writes the guard rules judge are mutated, outside constructors and resets, only by plain "
+              "assignments `self.f[..] = v` / `op=` or by the tabled in-place methods (swap of two positions, sort of the per-position "
+              "range): no `&mut self.f..` reference, `iter_mut()`, `get_mut()`, `as_mut_slice()` … is created — a write through such a "
+              "reference would be invisible to GUARD / PAIR / TIE / HISTO / MARKER / RESET-prefix")
+
+# prefix -> (register fields, {(field, method)} allowed in-place methods, functions whose mutations the RESET analysis judges)
+ALIAS_TABLE = {
+    "probminhasher::probminhash2::ProbMinHash2::<D, H>::": (["signature"], set(), ("new", "reset")),
+    "probminhasher::probminhash3::ProbMinHash3::<D, H>::": (["signature"], set(), ("new",)),
+    "probminhasher::probminhash3::ProbMinHash3a::<D, H>::": (["signature"], set(), ("new",)),
+    "probminhasher::probminhash3sha::ProbMinHash3aSha::<D>::": (["signature"], set(), ("new",)),
+    "superminhasher::SuperMinHash::<F, T, H>::": (["hsketch", "p", "q", "b", "a_upper", "item_rank"], {("p", "swap")}, ("new", "reinit")),
+    "superminhasher2::SuperMinHash2::<I, T, H>::": (["hsketch", "values", "l", "b", "a_upper", "item_rank"], set(), ("new", "reinit")),
+    "setsketcher::SetSketcher::<I, T, H>::": (["k_vec", "lower_k", "nbmin"], set(), ("new", "reinit", "default")),
+    "densminhash::OptDensMinHash::<F, D, H>::": (["hsketch", "values", "init", "nb_empty"], set(), ("new", "reinit")),
+    "densminhash::RevOptDensMinHash::<F, D, H>::": (["hsketch", "values", "init", "nb_empty"], set(), ("new", "reinit")),
+    "probminhasher::probordminhash2::OrdMinHashStore::<V>::": (["values", "indices"], {("indices", "sort_unstable"), ("indices", "sort")}, ("new", "reset")),
+    "maxvaluetrack::MaxValueTracker::<V>::": (["values"], set(), ("new", "reset")),
+    "fyshuffle::FYshuffle::": (["v", "lastidx"], {("v", "swap")}, ("new", "reset")),
+}
+
+
+def alias_rule(ctx, facts, prefixes):
+    """ALIAS for the structs named by their method-id prefixes; returns the number of mutation sites examined"""
+    from . import inline
+    ctx.rule("ALIAS", ALIAS_RULE)
+    n = 0
+    for prefix in prefixes:
+        if prefix not in ALIAS_TABLE:
+            raise AnalysisError("no ALIAS table row for %s" % prefix)
+        fields, allowed, exempt = ALIAS_TABLE[prefix]
+        found_any = False
+        for fid, fn in facts.fns.items():
+            if "hir" not in fn or not fid.startswith(prefix) or "{closure" in fid:
+                continue
+            found_any = True
+            if fid[len(prefix):] in exempt:
+                continue
+            bad = []
+            for x in user_nodes(fn):
+                if x["k"] == "MethodCall" and x.get("recv_ty", "").startswith("&mut "):
+                    kind, key, proj, idx = slicer.base_place(x["recv"])
+                    if kind == "self" and key in fields:
+                        n += 1
+                        if (key, x["name"]) not in allowed:
+                            bad.append((x, key, "the method `%s`" % x["name"]))
+                elif x["k"] == "AddrOf" and x.get("mut"):
+                    kind, key, proj, idx = slicer.base_place(x["e"])
+                    if kind == "self" and key in fields:
+                        n += 1
+                        bad.append((x, key, "a `&mut` reference"))
+                elif x["k"] in ("Assign", "AssignOp"):
+                    kind, key, proj, idx = slicer.base_place(x["l"])
+                    if kind == "self" and key in fields:
+                        n += 1
+                elif x["k"] in ("Call", "MethodCall") and fn["params"] and "&mut" in fn["params"][0].get("ty", ""):
+                    # the whole receiver handed to something else than one of its own methods: `helper(self)`, `x.f(self)`
+                    for a in x["args"]:
+                        b = a
+                        while b["k"] == "AddrOf" or (b["k"] == "Unary" and b.get("op") == "*"):
+                            b = b["e"]
+                        if b["k"] == "Path" and "local" in b.get("res", {}) and b["res"].get("name") == "self":
+                            n += 1
+                            bad.append((x, "*", "the whole `self` passed as an argument"))
+                elif x["k"] == "Let" and "init" in x and _is_whole_self(x["init"]) and fn["params"] and "&mut" in fn["params"][0].get("ty", ""):
+                    n += 1
+                    bad.append((x, "*", "a second name for `self`"))
+                elif x["k"] == "Let" and _has_ref_mut(x["pat"]):
+                    ini = x.get("init")
+                    if ini is not None:
+                        kind, key, proj, idx = slicer.base_place(ini)
+                        if kind == "self" and key in fields:
+                            n += 1
+                            bad.append((x, key, "a `ref mut` binding"))
+            for (x, key, how) in bad:
+                ctx.violation("ALIAS", fid, "%s mutated through %s" % (key, how.replace("`", "")), hirq.loc(x),
+                              "%s can be mutated through %s (`%s`): the guard rules only judge plain assignments to the register fields, "
+                              "so a write made this way would escape them" % ("self.%s" % key if key != "*" else "any field", how, hirq.show(x)[:70]))
+        if not found_any:
+            raise AnalysisError("ALIAS: no function with prefix %s in the analysed crate" % prefix)
+        ctx.ok("ALIAS", prefix.rstrip(":"), "fields %s mutated only by assignments%s outside %s" % (fields, (" and " + ", ".join("%s.%s" % a for a in sorted(allowed))) if allowed else "", list(exempt)), "")
+    return n
+
+
+def _is_whole_self(e):
+    while e["k"] == "AddrOf" or (e["k"] == "Unary" and e.get("op") == "*"):
+        e = e["e"]
+    return e["k"] == "Path" and "local" in e.get("res", {}) and e["res"].get("name") == "self"
+
+
+def _has_ref_mut(p):
+    k = p.get("k")
+    if k == "Bind":
+        return "Ref" in p.get("mode", "") and "Mut" in p.get("mode", "") and p.get("mode", "").startswith("BindingMode(Ref")
+    for key in ("subs",):
+        if key in p:
+            return any(_has_ref_mut(q) for q in p[key])
+    if "sub" in p:
+        return _has_ref_mut(p["sub"])
+    if k == "Struct":
+        return any(_has_ref_mut(f["pat"]) for f in p.get("fields", []))
+    return False
+
+
+_P2 = "probminhasher::probminhash2::ProbMinHash2::<D, H>::"
+_P3 = "probminhasher::probminhash3::ProbMinHash3::<D, H>::"
+_P3A = "probminhasher::probminhash3::ProbMinHash3a::<D, H>::"
+_SHA = "probminhasher::probminhash3sha::ProbMinHash3aSha::<D>::"
+_SMH = "superminhasher::SuperMinHash::<F, T, H>::"
+_SMH2 = "superminhasher2::SuperMinHash2::<I, T, H>::"
+_SS = "setsketcher::SetSketcher::<I, T, H>::"
+_OD = "densminhash::OptDensMinHash::<F, D, H>::"
+_RD = "densminhash::RevOptDensMinHash::<F, D, H>::"
+_OMS = "probminhasher::probordminhash2::OrdMinHashStore::<V>::"
+_MVT = "maxvaluetrack::MaxValueTracker::<V>::"
+_FY = "fyshuffle::FYshuffle::"
+# the structs whose guard rules each property relies on
+ALIAS_FOR = {
+    "C01": [_P2, _P3, _P3A, _SHA, _MVT, _FY, _OMS], "C02": [_P2, _P3, _P3A, _SHA, _MVT, _FY], "C03": [_SMH, _SMH2, _FY],
+    "C04": [_SMH, _SMH2, _SS, _OD, _RD, _FY], "C05": [_SS, _SMH], "C06": [_SS], "C07": [_SS, _FY], "C08": [_OD, _RD], "C09": [_OD, _RD],
+    "C10": [_OMS, _MVT, _FY], "C11": [_OMS, _MVT, _FY], "C13": list(ALIAS_TABLE), "C15": [_MVT], "C17": [_FY],
+}
+
+
+def run_property(prop, mod, ctx, facts):
+    """the rules of one property on one fact set: the property's own rule file, then ALIAS for the structs it relies on"""
+    mod.run(ctx, facts)
+    prefixes = [p_ for p_ in ALIAS_FOR.get(prop, []) if any(f.startswith(p_) for f in facts.fns)]
+    if prefixes:
+        alias_rule(ctx, facts, prefixes)
